@@ -321,7 +321,7 @@ class StmtMixin(CallMixin):
             I = self.interference()
             if I is not None:
                 if '*' in I.havoc:
-                    fields |= set(self.st.heap) - {'$alloc'} - set(I.keep)
+                    fields |= set(self.st.heap) - set(I.keep)
                 else:
                     fields |= set(I.havoc)
                 ghosts |= set(I.havoc_ghost)
@@ -329,16 +329,10 @@ class StmtMixin(CallMixin):
             if f in self.spec.fields:
                 self.havoc_field(f)
         if fields:
-            old_alloc = self.heap_arr('$alloc')
-            new_alloc = z3.Const(fresh_name('H.$alloc'), old_alloc.sort())
-            r = z3.Const(fresh_name('r'), Ref)
-            self.assume(z3.ForAll([r], z3.Implies(z3.Select(old_alloc, r), z3.Select(new_alloc, r)), patterns=[z3.Select(old_alloc, r)]))
-            self.st.heap['$alloc'] = new_alloc
+            self.grow_alloc()
         for g in sorted(ghosts):
             self.havoc_ghost(g)
-        # context variables written in the body
-        for nm in list(self.st.ctx):
-            pass
+        self.rebase_frame([f for f in fields if f in self.spec.fields], ghosts)
 
     def check_inv(self, L: dict, kind: str, ordinal: int, assume_only=False):
         env = dict(self.st.env)
@@ -383,6 +377,7 @@ class StmtMixin(CallMixin):
             self.st.env[iname] = mk_int(i + 1)
             self.st.env[sname] = src
             self.check_inv(L, 'preserved', ordinal)
+            self.check_frame('loop#%d' % ordinal)
             raise DeadPath('loop body done')
         self._restore_loop_vars(iname, sname, saved_i, saved_s)
 
@@ -410,6 +405,7 @@ class StmtMixin(CallMixin):
             except BreakSig:
                 return
             self.check_inv(L, 'preserved', ordinal)
+            self.check_frame('loop#%d' % ordinal)
             raise DeadPath('loop body done')
 
     # ------------------------------------------------------------------ try / with
